@@ -80,25 +80,23 @@ next_evfilt(echs_evstrm_t s, bool popp)
 	echs_event_t e = echs_evstrm_next(this->e);
 
 check:
-	if (UNLIKELY(echs_nul_range_p(this->ex))) {
+	if (UNLIKELY(echs_nul_instant_p(this->ex.beg))) {
 		/* no more exceptions */
 		goto pop;
 	}
 
-	/* otherwise check if the current exception overlaps with E */
-	with (echs_range_t r = echs_event_range(e)) {
-		if (echs_range_overlaps_p(r, this->ex)) {
-			/* yes it does */
-			(void)echs_evstrm_pop(this->e);
-			e = echs_evstrm_next(this->e);
-			goto check;
-		} else if (echs_range_precedes_p(this->ex, r)) {
-			/* we can't say for sure yet as there could be
-			 * another exception in the range of E */
-			echs_event_t ex = echs_evstrm_pop(this->x);
-			this->ex = echs_event_range(ex);
-			goto check;
-		}
+	/* an exception names the occurrence that starts at the same instant,
+	 * durations don't come into it */
+	if (echs_instant_eq_p(e.from, this->ex.beg)) {
+		/* yes it does */
+		(void)echs_evstrm_pop(this->e);
+		e = echs_evstrm_next(this->e);
+		goto check;
+	} else if (echs_instant_lt_p(this->ex.beg, e.from)) {
+		/* that exception is behind us, look at the next one */
+		echs_event_t ex = echs_evstrm_pop(this->x);
+		this->ex = echs_event_range(ex);
+		goto check;
 	}
 	/* otherwise it's certainly safe */
 pop:
